@@ -450,7 +450,20 @@ class CallMixin:
         st, bound = self.check_arg_kinds(st, c, bound, where)
         # ghost parameters of the callee are universally quantified in its contract: instantiate them with the
         # caller's ghost of the same name if there is one, else with an arbitrary fresh value
+        cur = self.reg.contracts.get(self.verifying)
+        gbind = (getattr(cur, "ghost_bind", None) or {}).get(c.qualname, {}) if cur is not None else {}
         for gname, gkind in c.ghost.items():
+            if gname in gbind:
+                # the caller's contract names the instance of the callee's universal ghost to use at its call sites:
+                # a spec expression over the caller's locals/ghosts (any instance of a universal is sound)
+                names = dict(self.entry_names)
+                names.update(st.locals)
+                names.update(st.ghost)
+                try:
+                    bound[gname] = self.coerce(st, self.spec_eval(SpecEnv(st, names), gbind[gname]), gkind)
+                    continue
+                except RuntimeError:
+                    pass            # the expression mentions a local that is unbound here: fall through
             if gname in st.ghost and not gname.startswith("$"):
                 bound[gname] = st.ghost[gname]
             else:
